@@ -27,7 +27,7 @@ type C16Plan struct {
 	MaxEnc   uint32
 	// xpoa: validator-set changes made on chain (editValidates transactions in real blocks) and the
 	// life of the receiving node around them; empty: the configured list stays in force
-	VC []C16Ev
+	VC       []C16Ev
 	Restarts []int `json:"restarts,omitempty"` // acc-pow / acc-tdpos / acc-single: the receiver is re-opened from its disk before these steps
 	// acc-upgrade: the chain starts under `single` and is upgraded on chain to another consensus
 	Up *C16Up `json:"up,omitempty"`
